@@ -215,7 +215,9 @@ func verifyAll(w *World, sp *Specs, mods *ModAnalysis, keys []string, families m
 	type job struct{ o *Obligation }
 	jobs := make(chan *Obligation)
 	var wg sync.WaitGroup
-	n := runtime.NumCPU() / 2
+	// three solver processes race per obligation: keep workers x 3 at or below the number of cores, otherwise the
+	// race loses more to contention than it gains (timeouts, then sequential retries)
+	n := runtime.NumCPU() / 3
 	if n > 8 {
 		n = 8
 	}
